@@ -274,6 +274,12 @@ def explore_class(task):
                             C.inc("env_rebuilds")
                             env = G.Env(rec)
                             warm(env, rec, P)
+                if viols:
+                    # a violating transition may have damaged class-level state (a mutated class default, ...):
+                    # continue with a fresh class so that later transitions are judged on their own
+                    C.inc("env_rebuilds")
+                    env = G.Env(rec)
+                    warm(env, rec, P)
                 if viols or out.raised:
                     continue
                 if key not in seen:
